@@ -4,6 +4,7 @@ from typing import Awaitable, Callable, Dict, List, Optional, Tuple, Type, Union
 
 import h2
 import h2.connection
+import h2.errors
 import h2.events
 import h2.exceptions
 import priority
@@ -264,7 +265,7 @@ class H2Protocol:
                     )
                 else:
                     await self._create_stream(event)
-                    await self.send(Updated(idle=False))
+                    await self.send(Updated(idle=self.idle))
 
                 if self.keep_alive_requests > self.config.keep_alive_max_requests:
                     self.connection.close_connection()
@@ -343,6 +344,17 @@ class H2Protocol:
                 method = value.decode("ascii").upper()
             elif name == b":path":
                 raw_path = value
+
+        try:
+            raw_path.decode("ascii")
+        except UnicodeDecodeError:
+            # A request target must be ASCII (h11 enforces this for
+            # HTTP/1), a malformed request is a stream error only.
+            self.connection.reset_stream(
+                request.stream_id, error_code=h2.errors.ErrorCodes.PROTOCOL_ERROR
+            )
+            await self._flush()
+            return
 
         if method == "CONNECT":
             self.streams[request.stream_id] = WSStream(
